@@ -26,7 +26,7 @@ func init() {
 		Category: "model_checking",
 		Rule: "first life: a stream in {70 KB text, 300 B, a stream ending in a corrupt-input error, a truncated stream, streams cut inside a dynamic header / inside a stored block's length field / inside its payload, a 70 KB stored stream, every stream of the C03 fault catalogue read to its error, streams started through Reset(src, dict) with a 20- or 40000-byte dictionary (70 KB: the window slides over the place of the dictionary)} x read history in {nothing read, 1 byte, 10 bytes, all but the last byte, to the end/error, exactly 65535 / 65536 bytes (output window full)} x Read size {1 MiB, 7}; optionally Close (the pooled-Reader pattern); then Reset(second source [, dictionary]), while the fresh reference Reader already exists (two instances alive at once); " +
 			"second life: every stream of the short corpus, malformed streams whose back-references reach 1, 2, 100 and 32768 bytes before their own start, containers of the same kind, raw streams with a preset dictionary of 20 and of 40000 bytes (only the last 32 KiB count; copies from its end, from 32000 back and from the part out of reach; malformed back-references into and beyond the dictionary) through flate's Reset(src, dict) against NewReaderDict, and for zlib every combination {first stream with/without dictionary} x {second with/without} incl. two different dictionaries of one length; every dictionary is handed over in one and the same caller-owned slice that is overwritten after the call; flate, gzip (also member stepping), zlib; second source plain, a 64-byte bufio, one byte per call, or one byte per call through a 16-byte bufio; " +
-			"first source plain, or a 64-byte or default-size *bufio.Reader owned by the caller; oracle: bytes and kind of error of the second life identical to a fresh Reader on the same input, and the first source untouched after Reset (no further Read call; the caller still reads from it exactly what was left); non-trivial = the first life decoded at least one byte",
+			"first source plain, or a 64-byte or default-size *bufio.Reader owned by the caller (then also with a life before it on a plain source: three sources in a row); oracle: bytes and kind of error of the second life identical to a fresh Reader on the same input, and the first source untouched after Reset (no further Read call; the caller still reads from it exactly what was left); non-trivial = the first life decoded at least one byte",
 		Assumptions: []string{"a freshly constructed Reader is the reference model"},
 		Quick:       TierSpec{MaxDev: -1, Shards: 4, ShardDepth: 3, BudgetS: 600},
 		Thorough:    TierSpec{MaxDev: -1, Shards: 8, ShardDepth: 3, BudgetS: 1200},
@@ -296,6 +296,10 @@ func c13Harness(cfg *Cfg) func(x *mc.Exec) {
 		// the pooled-Reader pattern: Close at the end of the first life, Reset at the start of the next (explored with the
 		// plain second source and the all-at-once policy)
 		closeFirst := viaBufio == 0 && pol.Name == env.PolicyAll.Name && x.Choose(2, "close-before-reset") == 1
+		// a life before the first one: the Reader was born on a plain source (and so owns a buffer of its own), read it
+		// to the end and was then Reset onto the first source (three sources in a row; explored when the first source
+		// is the caller's bufio.Reader)
+		bornElsewhere := fmode != 0 && x.Choose(2, "born-on-another-source") == 1
 		closeIt := func(r interface{}) {
 			if c, ok := r.(io.Closer); ok && closeFirst {
 				c.Close()
@@ -325,7 +329,13 @@ func c13Harness(cfg *Cfg) func(x *mc.Exec) {
 				var r io.Reader
 				if pi := Guard(func() {
 					first = newC13first(f1.stream, fmode)
-					r = fflate.NewReader(first.reader())
+					if bornElsewhere {
+						r = fflate.NewReader(env.NewSource(s300))
+						io.Copy(io.Discard, r)
+						r.(fflate.Resetter).Reset(first.reader(), nil)
+					} else {
+						r = fflate.NewReader(first.reader())
+					}
 					if f1.dict != nil {
 						r.(fflate.Resetter).Reset(first.reader(), lend(scrA, f1.dict))
 						takeBack()
@@ -355,7 +365,13 @@ func c13Harness(cfg *Cfg) func(x *mc.Exec) {
 			var r io.Reader
 			if pi := Guard(func() {
 				first = newC13first(f1.stream, fmode)
-				r = fflate.NewReader(first.reader())
+				if bornElsewhere {
+					r = fflate.NewReader(env.NewSource(s300))
+					io.Copy(io.Discard, r)
+					r.(fflate.Resetter).Reset(first.reader(), nil)
+				} else {
+					r = fflate.NewReader(first.reader())
+				}
 				if f1.dict != nil {
 					r.(fflate.Resetter).Reset(first.reader(), lend(scrA, f1.dict))
 					takeBack()
@@ -388,7 +404,15 @@ func c13Harness(cfg *Cfg) func(x *mc.Exec) {
 			if pi := Guard(func() {
 				var err error
 				first = newC13first(c1.bytes, fmode)
-				zr, err = fgzip.NewReader(first.reader())
+				if bornElsewhere {
+					zr, err = fgzip.NewReader(env.NewSource(gz[0].bytes))
+					if err == nil {
+						io.Copy(io.Discard, zr)
+						err = zr.Reset(first.reader())
+					}
+				} else {
+					zr, err = fgzip.NewReader(first.reader())
+				}
 				if err != nil {
 					panic(mc.HarnessError{Msg: "corpus container rejected: " + err.Error()})
 				}
